@@ -547,6 +547,7 @@ func (s *sandbox) populate(fs Val) {
 				panic(err)
 			}
 		}
+		s.presetTimes()
 	}()
 	for _, e := range vl(fs) {
 		var p [][]byte
@@ -582,6 +583,29 @@ func (s *sandbox) populate(fs Val) {
 	}
 }
 
+// every file and directory of a freshly populated sandbox gets this modification time, so that the
+// snapshot can say whether an entry's mtime was touched without comparing clock values
+var presetMtime = time.Unix(1500000000, 0)
+
+func (s *sandbox) presetTimes() {
+	filepath.Walk(s.real, func(p string, fi os.FileInfo, err error) error {
+		if err == nil && fi.Mode()&os.ModeSymlink == 0 {
+			if err := os.Chtimes(p, presetMtime, presetMtime); err != nil {
+				panic(err)
+			}
+		}
+		return nil
+	})
+}
+
+// mtime flag of a file or directory outside the output directory: 1 untouched, 2 changed
+func mtFlag(fi os.FileInfo) Val {
+	if fi.ModTime().Equal(presetMtime) {
+		return VN(1)
+	}
+	return VN(2)
+}
+
 type snapEnt struct {
 	path [][]byte
 	node Val
@@ -605,7 +629,26 @@ func absData(b []byte) []byte {
 	return append([]byte("#sha256:"), h[:]...)
 }
 
-func (s *sandbox) snapshot() Val {
+func (s *sandbox) snapshot(rr ...Val) Val {
+	// rr: the real output directory (tsome <phys>) | (tnone); entries outside it carry an mtime flag
+	outside := func(mp [][]byte) bool {
+		if len(rr) == 0 {
+			return false
+		}
+		if vt(vnth(rr[0], 0)) != "some" {
+			return true
+		}
+		root := vl(vnth(rr[0], 1))
+		if len(mp) < len(root) {
+			return true
+		}
+		for i, c := range root {
+			if !bytes.Equal(vb(c), mp[i]) {
+				return true
+			}
+		}
+		return false
+	}
 	var ents []snapEnt
 	var walk func(real string, mp [][]byte)
 	walk = func(real string, mp [][]byte) {
@@ -621,7 +664,11 @@ func (s *sandbox) snapshot() Val {
 			}
 			ents = append(ents, snapEnt{mp, VL{VT("l"), VB(s.modelStr([]byte(t)))}})
 		case fi.IsDir():
-			ents = append(ents, snapEnt{mp, VL{VT("d"), VN(modeBits(fi.Mode()))}})
+			dn := VL{VT("d"), VN(modeBits(fi.Mode()))}
+			if outside(mp) {
+				dn = append(dn, mtFlag(fi))
+			}
+			ents = append(ents, snapEnt{mp, dn})
 			des, err := os.ReadDir(real)
 			if err != nil {
 				panic(err)
@@ -635,7 +682,11 @@ func (s *sandbox) snapshot() Val {
 			if err != nil {
 				panic(err)
 			}
-			ents = append(ents, snapEnt{mp, VL{VT("f"), VB(absData(b)), VN(modeBits(fi.Mode()))}})
+			fn := VL{VT("f"), VB(absData(b)), VN(modeBits(fi.Mode()))}
+			if outside(mp) {
+				fn = append(fn, mtFlag(fi))
+			}
+			ents = append(ents, snapEnt{mp, fn})
 		default:
 			ents = append(ents, snapEnt{mp, VL{VT("special")}})
 		}
@@ -831,7 +882,7 @@ func runExtractCase(c *Ctx, in Val) Val {
 	if outArg == "-" {
 		rr = VL{VT("none")} // standard output, not a directory
 	}
-	return VL{extractStatus(res), rr, sb.snapshot(), VB(res.stdout)}
+	return VL{extractStatus(res), rr, sb.snapshot(rr), VB(res.stdout)}
 }
 
 func init() {
@@ -998,7 +1049,7 @@ func runCreateExtractCase(c *Ctx, in Val) Val {
 	if debug {
 		fmt.Fprintf(os.Stderr, "car extract (mode %d) exit=%d stderr: %s\n", mode, xr.exit, xr.stderr)
 	}
-	return VL{extractStatus(xr), rrv, sb.snapshot(), rootInfo}
+	return VL{extractStatus(xr), rrv, sb.snapshot(rrv), rootInfo}
 }
 
 // stdin connected to a regular file (seekable), as with `car extract dir < file.car`
